@@ -172,7 +172,7 @@ def c15_variable_case(spec):
         # the program itself must see the new value: sv(5) re-reads z from memory and returns (z + 5) * 3
         for bp_req in (('setBreakpoints', {'source': {'path': b.src}, 'breakpoints': []}),):
             d.request(*bp_req)
-        for _ in range(12):     # (a breakpoint created before start cannot be removed: C13 known finding - just continue through it)
+        for _ in range(40):     # (a breakpoint created before start cannot be removed: C13 known finding - just continue through it)
             n = len(d.log)
             d.request('continue', {'threadId': tid})
             ev = d.wait_event(('stopped', 'terminated'), timeout=40, start=n)
@@ -183,8 +183,12 @@ def c15_variable_case(spec):
         m_ = re.search(r'acc=(\d+)', outs)
         nat = int(re.search(r'acc=(\d+)', native[0].decode()).group(1))
         want = (nat - (((5 ^ 1) + 5) * 3) + ((newv + 5) & M64) * 3) & M64
+        if not m_:
+            # the program's last line did not arrive (slow machine, output forwarder lag): nothing to judge
+            v.inconc('program-output-not-captured', dict(ctx, written=newv))
+            return v.export()
         v.count('dap_variable_effects_compared')
-        if not m_ or int(m_.group(1)) != want:
+        if int(m_.group(1)) != want:
             v.violation(f'c15:{how}-not-seen-by-program', 'the program did not compute with the value written through the adapter',
                         dict(ctx, written=newv, program_printed=(m_.group(1) if m_ else None), expected=want))
         v.case(signature=('dapvar', how, newv.bit_length()), n=1)
